@@ -160,7 +160,15 @@ theorem sumRange_sound_partial (a b : Int) (h : a ≤ b) : sumClosed a b = listS
     rw [h2]; congr 1; omega
   rw [this, Int.mul_ediv_cancel_left _ (by decide)]
 
-/-- the full statement (no hypothesis) is false of the code that exists: `sum(range(5, 2))` becomes `-9` -/
+/-- **what the rule emits for `sum(range(a, b))` is the sum, for all integers `a`, `b`** (empty and reversed ranges included) -/
+theorem sumRange_sound (a b : Int) : sumEmitted a b = listSum (intRange a b) := by
+  unfold sumEmitted
+  by_cases h : a ≥ b
+  · rw [if_pos h, intRange_empty a b h]; rfl
+  · rw [if_neg h]; exact sumRange_sound_partial a b (by omega)
+
+/-- the closed form alone is not the sum: `sum(range(5, 2))` would be `-9` — what the rule emitted until the repair 41b17e5;
+the guard in `sumEmitted` is necessary -/
 def SumRangeFull : Prop := ∀ a b : Int, sumClosed a b = listSum (intRange a b)
 
 theorem sumRange_counterexample : ¬ SumRangeFull := by
